@@ -264,7 +264,9 @@ class World:
             raise OSError(errno.ENOSPC if kind == "enospc" else errno.EIO, "injected " + kind, dir)
         while True:
             self.tmp_counter += 1
-            name = _real_os.path.join(dir, "tmp%s_%d_%04d" % (prefix or "", os.getpid() % 100000, self.tmp_counter))
+            # like tempfile: <prefix><unique part><suffix>, the unique part being deterministic here
+            name = _real_os.path.join(dir, "%s_%d_%04d%s" % (prefix if prefix is not None else "tmp", os.getpid() % 100000,
+                                                               self.tmp_counter, suffix or ""))
             try:
                 fd = _real_os.open(name, os.O_RDWR | os.O_CREAT | os.O_EXCL, 0o600)
                 break
